@@ -10,7 +10,7 @@ EXPLANATION = ('Static rules: I1 RepeatTask counts seq only by +1, only after th
                'iteration re-arms a fresh new_timer(self.interval) that replaces it (one period between ticks, never earlier however late '
                'the executor runs); I3 the stream drivers relay Some(v) as next, end with take()+complete (or error) and Ready, and '
                'construct Pending only by propagating the inner poll; the one-shot task functions have their documented shape (C03.S1) and '
-               'the _at forms convert the deadline in the right direction (C07.T2). I4 timer and interval start their clock at subscription: the plain constructors do not read the clock (same rule as C13.Z1), the _at forms compute deadline - now forwards (same rule as C07.T2). Does not decide wall/virtual time ("exactly one '
+               'the _at forms convert the deadline in the right direction (C07.T2). I5 every Scheduler::schedule awaits the delay timer to Ready before the first poll of the task, for every non-None delay (same rule as C19.H2); I4 timer and interval start their clock at subscription: the plain constructors do not read the clock (same rule as C13.Z1), the _at forms compute deadline - now forwards (same rule as C07.T2). Does not decide wall/virtual time ("exactly one '
                'period"), clock jumps or poll orders: timing is delegated to the timer future, which is trusted.')
 ASSUMPTIONS = ['the timer future completes no earlier than its duration']
 
@@ -23,7 +23,14 @@ def _is_pending(e):
 
 
 def check(cx):
-    return i12(cx) + ([] if cx.control else i3(cx) + i4(cx))
+    return i12(cx) + ([] if cx.control else i3(cx) + i4(cx) + i5(cx))
+
+
+def i5(cx):
+    """the scheduler waits for the whole delay it is handed before the first poll of a task (same rule as C19.H2): timer / timer_at /
+    interval_at rely on it for 'never earlier'"""
+    from . import c19
+    return [Finding(ID, 'I5', f.key, f.ok, f.msg, f.loc, f.witness) for f in c19.h2(cx)]
 
 
 def i4(cx):
